@@ -1,22 +1,64 @@
-(* C44: proofs (skeleton written by mkcoq.py; shape-independent tactics of C44Tactics.v) *)
-From Coq Require Import Reals List Lra.
+(* C44: obligations that hold for ORTHOGONAL rotation matrices only (round trip global -> material -> global,
+   isotropy of the Hooke response).  Method (independent of the shape of the traced terms): each side is first shown,
+   by a pure ring/field identity without hypotheses, to equal its index-notation form written with the Gram matrices
+   gram r = r^T r and gram (tr2 r) = r r^T kept folded; the hypotheses gram = delta are then rewritten. *)
+From Coq Require Import Reals List Lra Lia.
 From VLib Require Import RealExtra.
 From C44 Require Import C44Spec C44_gen C44Statements C44Tactics.
 Import ListNotations.
 Local Open Scope R_scope.
 
-Lemma gen_tri_round_trip_proof : gen_tri_round_trip_ok.
-Proof. unfold gen_tri_round_trip_ok. intros until 0; intro H; orth_hyps H; unfold gen_rotg_tri, gen_rotf_tri; spec_red; list_eq_orth. Qed.
+Ltac grams H :=
+  cbv [flat_s map firstn ssize pairs6 fst snd sum3 trace2];
+  repeat match goal with
+         | |- context [gram ?r ?i ?j] => rewrite (proj1 (H i j ltac:(lia) ltac:(lia)))
+         | |- context [gram (tr2 ?r) ?i ?j] => rewrite (proj2 (H i j ltac:(lia) ltac:(lia)))
+         end.
+Ltac nz3 :=
+  try match goal with
+  | H1 : ?a <> 0, H2 : ?b <> 0 |- _ =>
+      assert (a * b <> 0) by (apply Rmult_integral_contrapositive_currified; assumption)
+  end.
+
+(* r (r^T e r) r^T = (r r^T) e (r r^T) *)
+Definition round_trip_form (N : nat) (r e : M2) : list R :=
+  flat_s N (fun i j => sum3 (fun p => sum3 (fun q => gram (tr2 r) i p * gram (tr2 r) j q * e p q))).
 
 Lemma gen_pstrain_round_trip_proof : gen_pstrain_round_trip_ok.
-Proof. unfold gen_pstrain_round_trip_ok. intros until 0; intro H; orth_hyps H; unfold gen_rotg_pstrain, gen_rotf_pstrain; spec_red; list_eq_orth. Qed.
+Proof.
+  unfold gen_pstrain_round_trip_ok. intros e0 e1 e2 e3 r0 r1 r2 r3 r4 r5 r6 r7 r8 H. cbv zeta.
+  transitivity (round_trip_form 2 (full_r 2 [r0; r1; r2; r3; r4; r5; r6; r7; r8]) (full_s 2 [e0; e1; e2; e3])).
+  - unfold gen_rotg_pstrain, gen_rotf_pstrain, round_trip_form. spec_red. list_eq.
+  - unfold round_trip_form. grams H. spec_red. list_eq.
+Qed.
+
+(* r^T (la tr(e) I + 2 mu e) r = la tr(e) (r^T r) + 2 mu r^T e r  and
+   la tr(r^T e r) I + 2 mu r^T e r = la (r r^T : e) I + 2 mu r^T e r *)
+Definition iso_lhs_form (N : nat) (la mu : R) (r e : M2) : list R :=
+  flat_s N (fun i j => la * trace2 e * gram r i j + 2 * mu * rot2 r e i j).
+Definition iso_rhs_form (N : nat) (la mu : R) (r e : M2) : list R :=
+  flat_s N (fun i j => la * sum3 (fun m => sum3 (fun n => gram (tr2 r) m n * e m n)) * delta i j + 2 * mu * rot2 r e i j).
 
 Lemma hooke_tri_isotropic_proof : hooke_tri_isotropic_ok.
-Proof. unfold hooke_tri_isotropic_ok. intros until 0; intro H; orth_hyps H; unfold isosig_tri, cb2_3; spec_red; list_eq_orth. Qed.
+Proof.
+  unfold hooke_tri_isotropic_ok. intros young nu e0 e1 e2 e3 e4 e5 r0 r1 r2 r3 r4 r5 r6 r7 r8 Hn1 Hn2 H. cbv zeta. nz3.
+  transitivity (iso_lhs_form 3 (lame_lambda young nu) (lame_mu young nu)
+                  (full_r 3 [r0; r1; r2; r3; r4; r5; r6; r7; r8]) (full_s 3 [e0; e1; e2; e3; e4; e5])).
+  - unfold isosig_tri, cb2_3, iso_lhs_form. spec_red. list_eq.
+  - transitivity (iso_rhs_form 3 (lame_lambda young nu) (lame_mu young nu)
+                    (full_r 3 [r0; r1; r2; r3; r4; r5; r6; r7; r8]) (full_s 3 [e0; e1; e2; e3; e4; e5])).
+    + unfold iso_lhs_form, iso_rhs_form. grams H. spec_red. list_eq.
+    + unfold isosig_tri, cb2_3, iso_rhs_form. spec_red. list_eq.
+Qed.
 
 Lemma hooke_pstrain_isotropic_in_plane_proof : hooke_pstrain_isotropic_in_plane_ok.
-Proof. unfold hooke_pstrain_isotropic_in_plane_ok. intros until 0; intro H; orth_hyps H; unfold isosig_pstrain, cb2_2; spec_red; list_eq_orth. Qed.
-
-Lemma hooke_pstress_alt_isotropic_in_plane_proof : hooke_pstress_alt_isotropic_in_plane_ok.
-Proof. unfold hooke_pstress_alt_isotropic_in_plane_ok. intros until 0; intro H; orth_hyps H; unfold isosig_pstress_alt, cb2_2; spec_red; list_eq_orth. Qed.
-
+Proof.
+  unfold hooke_pstrain_isotropic_in_plane_ok. intros young nu e0 e1 e2 e3 r0 r1 r2 r3 r4 r5 r6 r7 r8 Hn1 Hn2 H. cbv zeta. nz3.
+  transitivity (iso_lhs_form 2 (lame_lambda young nu) (lame_mu young nu)
+                  (full_r 2 [r0; r1; r2; r3; r4; r5; r6; r7; r8]) (full_s 2 [e0; e1; e2; e3])).
+  - unfold isosig_pstrain, cb2_2, iso_lhs_form. spec_red. list_eq.
+  - transitivity (iso_rhs_form 2 (lame_lambda young nu) (lame_mu young nu)
+                    (full_r 2 [r0; r1; r2; r3; r4; r5; r6; r7; r8]) (full_s 2 [e0; e1; e2; e3])).
+    + unfold iso_lhs_form, iso_rhs_form. grams H. spec_red. list_eq.
+    + unfold isosig_pstrain, cb2_2, iso_rhs_form. spec_red. list_eq.
+Qed.
